@@ -28,8 +28,18 @@ deriving DecidableEq, Repr
 structure Resp where
   status : Nat
   prob : String
-  nonce : Option String        -- never `some ""`
+  replayNonce : List String    -- the Replay-Nonce header fields of the response, in order (possibly empty strings)
 deriving DecidableEq, Repr
+
+/-- `nonceFromHeader` = `h.Get("Replay-Nonce")`: the first field only; the callers (`addNonce`,
+    `fetchNonce`) treat an empty value as "no nonce" -/
+def nonceFromHeader (h : List String) : Option String :=
+  match h with
+  | [] => none
+  | v :: _ => if v == "" then none else some v
+
+/-- the nonce the client takes from a response -/
+def Resp.nonce (p : Resp) : Option String := nonceFromHeader p.replayNonce
 
 inductive Reply
   | resp (r : Resp)
@@ -69,7 +79,7 @@ deriving DecidableEq, Repr
 def maxNonces : Nat := 100
 
 /-- what a server with an exhausted script answers -/
-def defaultResp : Resp := ⟨418, "", none⟩
+def defaultResp : Resp := ⟨418, "", []⟩
 
 /-- one round trip. A cancelled context never reaches the server. -/
 def serve (st : St) (r : Req) : St × Except Err Resp :=
